@@ -725,6 +725,7 @@ static std::uint64_t fast_chain_dispatch(int t, std::uint64_t lo, std::uint64_t 
   }
 }
 
+#ifndef VERIF_FUZZ
 int main(int argc, char** argv) {
   args a(argc, argv);
   const std::string prop = a.str("prop", "C11");
@@ -953,3 +954,66 @@ int main(int argc, char** argv) {
   if (!out.empty()) st.write(out);
   return 0;
 }
+#else  // VERIF_FUZZ: libFuzzer target (second engine for C11 / C12 / C15)
+#include <fuzzer/FuzzedDataProvider.h>
+
+// bytes -> (schema, two tuples of that schema); the oracle of the property
+// named by VERIF_FUZZ_PROP runs inside the target; a failure writes the pair
+// as text (the replay unit of `enc --replay`) and traps.
+extern "C" int LLVMFuzzerTestOneInput(const uint8_t* data, size_t size) {
+  static const std::string prop = std::getenv("VERIF_FUZZ_PROP") ? std::getenv("VERIF_FUZZ_PROP") : "C11";
+  static const std::string outdir = std::getenv("VERIF_FUZZ_OUT") ? std::getenv("VERIF_FUZZ_OUT") : ".";
+  static const bool dump = std::getenv("VERIF_FUZZ_DUMP") != nullptr;
+  static const std::string longbase = [] {
+    std::string b;
+    vrng r(99);
+    for (std::size_t i = 0; i < MAXLEN + 300; ++i) b.push_back(static_cast<char>(1 + r.below(255)));
+    return b;
+  }();
+  FuzzedDataProvider fdp(data, size);
+  pcase c;
+  const unsigned n = fdp.ConsumeIntegralInRange<unsigned>(1, prop == "C12" ? 40 : 5);
+  bool had_long = false;
+  for (unsigned i = 0; i < n; ++i) {
+    const int t = fdp.ConsumeIntegralInRange<int>(0, CT_COUNT - 1);
+    c.schema.push_back(t);
+    val a, b;
+    a.t = b.t = t;
+    if (t == TEXT) {
+      auto mk = [&](val& v) {
+        const unsigned kind = fdp.ConsumeIntegralInRange<unsigned>(0, 5);
+        if (kind == 0 && !had_long) {  // around / beyond the maximum length
+          v.text = longbase.substr(0, MAXLEN - 8 + fdp.ConsumeIntegralInRange<unsigned>(0, 40));
+          had_long = true;
+        } else {
+          v.text = fdp.ConsumeBytesAsString(fdp.ConsumeIntegralInRange<unsigned>(0, kind == 1 ? 300 : 12));
+        }
+        v.text.append(fdp.ConsumeIntegralInRange<unsigned>(0, 2), '\0');
+      };
+      mk(a);
+      if (fdp.ConsumeBool()) {
+        b = a;
+        if (fdp.ConsumeBool() && !b.text.empty()) b.text[fdp.ConsumeIntegralInRange<std::size_t>(0, b.text.size() - 1)] ^= 1;
+        if (fdp.ConsumeBool()) b.text.push_back(static_cast<char>(fdp.ConsumeIntegral<std::uint8_t>()));
+      } else {
+        mk(b);
+      }
+    } else {
+      a.bits = fdp.ConsumeIntegral<std::uint64_t>() & mask_of(t);
+      b.bits = fdp.ConsumeBool() ? ((a.bits + fdp.ConsumeIntegralInRange<int>(-2, 2)) & mask_of(t)) : (fdp.ConsumeIntegral<std::uint64_t>() & mask_of(t));
+    }
+    c.a.push_back(a);
+    c.b.push_back(b);
+  }
+  if (!case_in_domain(c, prop)) return 0;
+  if (dump) write_file(outdir + "/last_case.txt", case_to_text(c));
+  const outcome o = check_pair(c, prop);
+  if (!o.ok) {
+    write_file(outdir + "/fuzz_fail_" + std::to_string(hash_str(case_to_text(c))) + ".txt",
+               "# libFuzzer: property " + prop + " violated: " + o.msg + "\n" + case_to_text(c));
+    __builtin_trap();
+  }
+  return 0;
+}
+#endif
+
